@@ -180,7 +180,17 @@ func (h *hydrex) Save(ctx context.Context, indexName string, domain string, item
 
 	// iterating through the new items
 	for key, data := range items {
-		if _, ok := existingCoreData[key]; !ok {
+		if existing, ok := existingCoreData[key]; ok {
+			// the key is already stored for this domain: its index entry stays, but a changed
+			// value must still be written (the domain reads back its LAST saved items)
+			if existing.Value != data.Value {
+				itemsForSave = append(itemsForSave, &CoreData{
+					Key:       key,
+					Value:     data.Value,
+					CreatedAt: existing.CreatedAt,
+				})
+			}
+		} else {
 
 			// array for saving new items
 			itemsForSave = append(itemsForSave, &CoreData{
